@@ -146,6 +146,8 @@ func main() {
 			}
 		}
 	}
+	tsaRoot := lib.Mint(nil, lib.CertSpec{CN: "c07-tsa-root", Kind: "ca", KeyIdx: 6})
+	tsaLeaf := lib.Mint(tsaRoot, lib.CertSpec{CN: "c07-tsa", Kind: "tsa", KeyIdx: 2})
 	lib.Parallel(len(cases), 16, func(ci int) {
 		c := cases[ci]
 		ent := signers[c.Spec]
@@ -190,12 +192,28 @@ func main() {
 		}
 		sv := trustpolicy.SignatureVerification{VerificationLevel: "strict"}
 		ts := lib.NewMemTS().Put("ca:x", ent.Root().Cert)
-		v, err := verifier.NewVerifierWithOptions(ts, verifier.VerifierOptions{OCITrustPolicy: lib.OCIPolicy(sv, []string{"ca:x"}, []string{"*"}), BlobTrustPolicy: lib.BlobPolicy(sv, []string{"ca:x"}, []string{"*"}),
+		stores := []string{"ca:x"}
+		sopts := notation.SignerSignOptions{SignatureMediaType: c.Format, ExpiryDuration: c.Expiry, SigningAgent: c.Agent}
+		// every third locally signed case is countersigned at signing time by the in-process RFC 3161 TSA and verified
+		// by a policy that DEMANDS the countersignature (tsa store listed, verifyTimestamp=always)
+		timestamped := strings.HasPrefix(c.SignerKind, "local") && ci%3 == 0
+		if timestamped {
+			pool := x509.NewCertPool()
+			pool.AddCert(tsaRoot.Cert)
+			sopts.Timestamper, sopts.TSARootCAs = &lib.TSA{Key: tsaLeaf.Key, Chain: tsaLeaf.Chain()}, pool
+			if ci%2 == 0 {
+				sopts.TSARevocationValidator = lib.OKRev{}
+			}
+			sv.VerifyTimestamp = trustpolicy.OptionAlways
+			stores = append(stores, "tsa:t")
+			ts.Put("tsa:t", tsaRoot.Cert)
+			r.Event("countersigned-at-signing-time")
+		}
+		v, err := verifier.NewVerifierWithOptions(ts, verifier.VerifierOptions{OCITrustPolicy: lib.OCIPolicy(sv, stores, []string{"*"}), BlobTrustPolicy: lib.BlobPolicy(sv, stores, []string{"*"}),
 			RevocationCodeSigningValidator: lib.OKRev{}, RevocationTimestampingValidator: lib.OKRev{}})
 		if err != nil {
 			panic(err)
 		}
-		sopts := notation.SignerSignOptions{SignatureMediaType: c.Format, ExpiryDuration: c.Expiry, SigningAgent: c.Agent}
 		r.Eval(id)
 		wit := map[string]any{"case": c}
 		sig := func(kind string) map[string]string {
@@ -236,6 +254,9 @@ func main() {
 			}
 			if st.Before(t0.Add(-2*time.Second)) || st.After(time.Now().Add(2*time.Second)) {
 				r.Violation(sig("signing-time"), fmt.Sprintf("%s: signing time %v is not the time of signing", id, st), wit)
+			}
+			if timestamped && len(si.UnsignedAttributes.TimestampSignature) == 0 {
+				r.Violation(sig("countersignature-missing"), id+": a timestamper was given to the signer, the verified envelope carries no countersignature", wit)
 			}
 			if c.Agent != "" && strings.HasPrefix(c.SignerKind, "local") && si.UnsignedAttributes.SigningAgent != c.Agent {
 				r.Violation(sig("agent"), fmt.Sprintf("%s: signing agent %q, requested %q", id, si.UnsignedAttributes.SigningAgent, c.Agent), wit)
